@@ -209,8 +209,14 @@ func cmdVerify(args []string) int {
 	wg.Wait()
 	// second chance: obligations that timed out / came back unknown are retried with more
 	// time, another seed and little concurrency (guards against load-induced flakiness)
+	// (obligations listed as known findings get the first pass only: a finding that has become
+	// provable is noticed there, one that still fails needs no second opinion)
+	knownNames := loadKnown(filepath.Join(*verif, "KNOWN_FINDINGS.txt"), pf.ID)
 	var retry []*Obligation
 	for _, o := range first {
+		if _, isKnown := knownNames[o.Name]; isKnown {
+			continue
+		}
 		if o.Res.Answer != "unsat" && o.Res.Answer != "sat" {
 			retry = append(retry, o)
 		}
